@@ -64,10 +64,10 @@ fn c16_remap_perm() {
 
 /// C16: for every seed written as q*10! + (d0 + 10*(d1 + 9*(d2 + ...))) the layout is the factorial-base
 /// decode of (d0..d9), independent of q: the layout is determined by seed mod 10!.
-fn remap_mixed_radix(qmax: u32) {
+fn remap_mixed_radix(qmin: u32, qmax: u32) {
     let d: [u8; 10] = kani::any();
     let q: u32 = kani::any();
-    kani::assume(q <= qmax);
+    kani::assume(q >= qmin && q <= qmax);
     let mut k = 0;
     while k < 10 {
         kani::assume((d[k] as usize) < 10 - k);
@@ -93,14 +93,22 @@ fn remap_mixed_radix(qmax: u32) {
 #[kani::proof]
 #[kani::unwind(12)]
 fn c16_remap_lehmer() {
-    remap_mixed_radix(0);
+    remap_mixed_radix(0, 0);
 }
 
 /// thorough: every u32 seed (q <= 1183)
 #[kani::proof]
 #[kani::unwind(12)]
 fn c16_remap_periodic() {
-    remap_mixed_radix(1183);
+    remap_mixed_radix(1, 1183);
+}
+
+/// thorough: two concrete quotients (seed = 10! + r and seed = 1183 * 10! + r)
+#[kani::proof]
+#[kani::unwind(12)]
+fn c16_remap_periodic_q() {
+    remap_mixed_radix(1, 1);
+    remap_mixed_radix(1183, 1183);
 }
 
 /// C16: digit extraction is the decimal expansion (most significant first), for every u32.
